@@ -51,8 +51,10 @@ def run(ctx, replay=None):
             .replace('Mode = "stated"', 'Mode = "%s"' % NUCMODE).splitlines()
         if ctx.tier == "quick":
             lines = [l.replace("Grids <- GridsDef", "Grids <- GridsQ") for l in lines]
+        else:
+            lines = [l.replace("Grids <- GridsDef", "Grids <- GridsT") for l in lines]      # (the third grid of GridsDef is the quick tier's)
         gen = T.write_cfg("pbmtransport", lines)
-        res = run_tlc("MC_PBMTransport", gen, deadlock=False, timeout=3000, tag="pbmtransport")
+        res = run_tlc("MC_PBMTransport", gen, deadlock=False, timeout=6000, tag="pbmtransport")
         ctx.add_tlc(res, "PBMTransport exhaustive (%s)" % cfg)
         if res.violated:
             ctx.tlc_violation(res, "PBMTransport")
@@ -62,7 +64,7 @@ def run(ctx, replay=None):
         if rv.violated != "NeverCorrected":
             raise MachineryError("vacuity: flux correction never occurs in the exhaustive domain")
         for comp in ("NeverScaledBothFaces", "AsBuiltTotalLimit"):
-            vac = T.write_cfg("pbmtransport_vac", [l.replace("Grids <- GridsDef", "Grids <- GridsQ") for l in lines if not l.startswith("INVARIANT")] + ["INVARIANT " + comp])
+            vac = T.write_cfg("pbmtransport_vac", [l.replace("Grids <- GridsDef", "Grids <- GridsQ").replace("Grids <- GridsT", "Grids <- GridsQ") for l in lines if not l.startswith("INVARIANT")] + ["INVARIANT " + comp])
             rv = run_tlc("MC_PBMTransport", vac, deadlock=False, timeout=600, tag="pbmtransport_vac")
             if rv.violated != comp:
                 raise MachineryError("vacuity: %s is not violated in the exhaustive domain (the both-faces correction is never exercised)" % comp)
